@@ -5,6 +5,7 @@ package main
 import (
 	"fmt"
 	"strconv"
+	"strings"
 	"time"
 
 	"github.com/tdakkota/docker-logql/internal/zzverif/mockq"
@@ -51,6 +52,7 @@ type c09Fn struct {
 	unwrap bool
 	conv   string
 	group  bool    // by (s)
+	none   bool    // by (): every sample in one series without labels
 	param  float64 // quantile
 	vals   string  // "pow2", "const", "bytes", "dur"
 }
@@ -75,6 +77,9 @@ var c09Fns = []c09Fn{
 	{name: "stddev-big-by", op: "stddev_over_time", unwrap: true, group: true, vals: "big"},
 	{name: "stdvar-big-by", op: "stdvar_over_time", unwrap: true, group: true, vals: "big"},
 	{name: "avg-big-by", op: "avg_over_time", unwrap: true, group: true, vals: "big"},
+	{name: "max-by-none", op: "max_over_time", unwrap: true, none: true, vals: "pow2"},
+	{name: "avg-by-none", op: "avg_over_time", unwrap: true, none: true, vals: "pow2"},
+	{name: "first-by-none", op: "first_over_time", unwrap: true, none: true, vals: "pow2"},
 	{name: "max-neg-by", op: "max_over_time", unwrap: true, group: true, vals: "neg"},
 	{name: "min-neg-by", op: "min_over_time", unwrap: true, group: true, vals: "neg"},
 	{name: "last-neg", op: "last_over_time", unwrap: true, vals: "neg"},
@@ -156,6 +161,9 @@ func c09Expr(in c09Input, fn c09Fn) *refmodel.RangeAgg {
 	}
 	if fn.group {
 		e.Grouping = &refmodel.Grouping{Labels: []string{"s"}}
+	}
+	if fn.none {
+		e.Grouping = &refmodel.Grouping{Labels: []string{}}
 	}
 	if fn.op == "quantile_over_time" {
 		p := fn.param
@@ -373,10 +381,46 @@ func c09Run(r *vkit.Run) {
 			}
 		}
 	}
-	r.Note("bounds", fmt.Sprintf("sample sets: all subsets of {0..8}s of size <=%d (+ doubled-timestamp and second-series variants); ranges {1,2,4}s x offsets {0,1,3}s x starts 0..6 x spans 0..8 x steps {instant,1,2,3,5}s x storage time-filtering on/off for count/avg/last; a reduced grid (starts {0,3}, spans {0,4,8}, steps {instant,1,3}) for the other %d function variants; the three window-identifying functions again on grids in units of 100 ms and of 15 s; windows holding 13, 16, 32 (samples exactly on window edges), 50, 300 and 2000 samples for every function; request entry limits {none,1,2} (a metric query ignores them); unwrapped durations with fractional seconds, byte sizes in four units", maxSize, len(c09Fns)-3))
+	c09SpellRun(r, &idx)
+	r.GlobalState("spellings")
+	// grids of more steps than any cap on their number one might think of: every step is answered
+	for _, steps := range []int{11001, 20000} {
+		idx++
+		if r.Mine(idx) && !r.Stop() {
+			// (samples at the very beginning and within the last steps of the grid)
+			c09Check(r, c09Input{A: []int{0, 5, steps - 3, steps}, Fn: "count", RangeS: 2, StartS: 1, SpanS: steps, StepS: 1, TimeFilter: true})
+			c09Check(r, c09Input{A: []int{1, 2*steps - 5}, B: true, Fn: "bytes", RangeS: 4, StartS: 0, SpanS: steps * 2, StepS: 2, TimeFilter: true})
+		}
+	}
+	r.GlobalState("long-grids")
+	c09PipeRun(r, &idx)
+	r.GlobalState("pipelines")
+	c09DockerRun(r, &idx)
+	r.GlobalState("docker-querier")
+	r.Note("bounds", fmt.Sprintf("sample sets: all subsets of {0..8}s of size <=%d (+ doubled-timestamp and second-series variants); ranges {1,2,4}s x offsets {0,1,3}s x starts 0..6 x spans 0..8 x steps {instant,1,2,3,5}s x storage time-filtering on/off for count/avg/last; a reduced grid (starts {0,3}, spans {0,4,8}, steps {instant,1,3}) for the other %d function variants; the three window-identifying functions again on grids in units of 100 ms and of 15 s; windows holding 13, 16, 32 (samples exactly on window edges), 50, 300 and 2000 samples for every function; request entry limits {none,1,2} (a metric query ignores them); unwrapped durations with fractional seconds, byte sizes in four units; ranges and offsets of 0.1 s to 9.9 s and seven minute-sized ones in every spelling (ms, fractional seconds, s+ms, fractional minutes, m+s) with samples on and next to both window edges; grids of 11001 and 20000 steps; `by ()` on max / avg / first over time; count / bytes / grouped sums over 20 pipelines (label filters on a label some records lack, line filters, parsers with line_format incl. empty and failing output, drop / keep / label_format, decolorize) x 2 ranges x 8 grids x 2 record orders; sums by container over the Docker querier (7 inventories of 1-4 containers x 3 time units x 9 grids, with a daemon that honours since/until and one that does not)", maxSize, len(c09Fns)-3))
 }
 
 func c09Replay(r *vkit.Run, v vkit.Violation) *vkit.Violation {
+	switch strings.TrimSuffix(v.Check, "/termination") {
+	case "C09/spelling":
+		var in c09SpellInput
+		if err := vkit.DecodeInput(v, &in); err != nil {
+			r.HarnessError("bad input: %v", err)
+		}
+		return vkit.ReplayOne(r, func() { c09SpellCheck(r, in) })
+	case "C09/pipeline":
+		var in c09PipeInput
+		if err := vkit.DecodeInput(v, &in); err != nil {
+			r.HarnessError("bad input: %v", err)
+		}
+		return vkit.ReplayOne(r, func() { c09PipeCheck(r, in) })
+	case "C09/docker":
+		var in c09DockerInput
+		if err := vkit.DecodeInput(v, &in); err != nil {
+			r.HarnessError("bad input: %v", err)
+		}
+		return vkit.ReplayOne(r, func() { c09DockerCheck(r, in) })
+	}
 	var in c09Input
 	if err := vkit.DecodeInput(v, &in); err != nil {
 		r.HarnessError("bad input: %v", err)
